@@ -125,7 +125,7 @@ def run(ctx):
         if len(want) >= 3 or any(x['t'] != 'node' and x['t'] != 'done' for x in want):
             ctx.mark_nontrivial((sig(c.src), c.policy, c.jitter, c.fail_at, c.unreadable, c.via))
     ctx.sample(cases[3].describe())
-    if ctx.tier == 'thorough':
+    if ctx.tier == 'thorough' and getattr(ctx, 'blackbox', None) is None:
         from .. import core
         race = core.GoDriver(core.build_go(True, race=True), 'C18race')
         sub = cases[::5]
